@@ -248,6 +248,23 @@ def check_percentages():
             if text != want:
                 out.append(("C11:percentage-wrong", "Proportion(%r, percentage) shown as %r, expected %r" % (v, text, want)))
                 break
+    # through the whole tool: a written percentage is the same percentage at every scale (a share of something does not grow with the recipe), whatever
+    # stands behind it; descriptions the tool refuses show nothing and are skipped
+    from recipe_grid.compiler import compile as rg_compile
+    from recipe_grid.renderer.html import render_recipe_tree
+    for src, pcts in (("sauce = boil(1 kg tomatoes)\nfry(50% of the sauce, 2 eggs)\nfreeze(25 % sauce)\nbin(remaining sauce)", ["50%", "25 %"]),
+                      ("1 kg mince\nfry(33 1/3 % of the mince)\nfreeze(rest of the mince)", ["33 1/3 %"]),
+                      ("5% fat mince", ["5%"]), ("fry(2% milk, 3 eggs)", ["2%"]), ("33 1/3 % cream", ["33 1/3 %"]), ("stew(12.5 % of the stock, 1 onion)", ["12.5 %"])):
+        try:
+            recipes = rg_compile([src])
+        except Exception:  # noqa
+            continue
+        for k in (1, 2, 3, Fraction(1, 2), 2.5):
+            text = " ".join(" ".join(pyhtml.unescape(re.sub(r"<[^>]*>", " ", render_recipe_tree(t))) for r in recipes for t in r.scale(k).recipe_trees).replace("\u2044", "/").split())
+            shown = ["".join(m.split()) for m in re.findall(r"\d[\d ./]*?\s*%", text)]      # (compared without blanks: fractions are drawn with elements of their own)
+            if shown != ["".join(p_.split()) for p_ in pcts]:
+                out.append(("C11:percentage-wrong", "%r at scale %r shows the percentages %r, written %r" % (src, k, shown, pcts)))
+                break
     return out
 
 
@@ -341,14 +358,15 @@ def check_scaled_display():
     from recipe_grid.static_site.standalone_page import generate_standalone_page
     scratch = gen_site.scratch_root()
     try:
-        for native, quantities in ((3, [1, 2, 5]), (6, [1, 4]), (7, [3]), (12, [5, 7]), (4, [1, 3])):
+        for native, quantities in ((3, [1, 2, 5]), (6, [1, 4]), (7, [3]), (12, [5, 7]), (4, [1, 3]), (2, ["1/3", "5/12", "2/3", 7]), (1, ["1/3", "3/8"]), (4, ["1/6", "1 1/2"])):
             f = Path(scratch) / ("stew%d.md" % native)
-            f.write_text("# Stew for %d\n\n" % native + "".join("    %d onions%d\n" % (q, i) for i, q in enumerate(quantities)))
-            for target in (1, 2, 4, 5, 8):
+            f.write_text("# Stew for %d\n\n" % native + "".join("    %s onions%d\n" % (q, i) for i, q in enumerate(quantities)))
+            quantities = [sum(Fraction(x) for x in str(q).split()) for q in quantities]
+            for target in (1, 2, 4, 5, 8, 3, 12):      # (whole multiples of the stated count among them: the ratio is a whole number there)
                 page = generate_standalone_page(f, servings=target, embed_local_links=False)
                 root, _ = htmltok.tree(page)
                 cells = [" ".join(n.text().replace("\u2044", "/").split()) for n in root.iter() if n.tag == "td" and "rg-ingredient" in n.classes()]
-                want = [own_format(Fraction(q * target, native)) for q in quantities]
+                want = [own_format(q * target / native) for q in quantities]
                 got = [c.rsplit(" onions", 1)[0] for c in cells]
                 if None not in want and got != want:
                     out.append(("C11:scaled-number-shown-wrong", "stand-alone page of a recipe for %d at %d servings shows %r, exactly %r" % (native, target, got, want)))
